@@ -496,6 +496,10 @@ func (r *Recomposer) recomp(v any, rv reflect.Value) {
 	case reflect.Interface:
 		v = r.recompAny(v)
 		rv.Set(reflect.ValueOf(v))
+	case reflect.Ptr: // a pointer to a pointer
+		ev := reflect.New(rv.Type().Elem())
+		r.recomp(v, ev)
+		rv.Set(ev)
 
 	case reflect.Bool:
 		rv.Set(reflect.ValueOf(v))
